@@ -66,6 +66,26 @@ CHECKS = {
             {"name": "c03-opt", "bin": "c03", "build": "harness:c03", "run": "^TestC03Opt$", "quick": 40000, "thorough": 2000000},
         ],
     },
+    "C04": {
+        "level": "exploration",
+        "manifest": {
+            "technique": "exhaustive small matrices (operators, builtins, statement positions x operand kinds) plus property-based testing with heavily ill-typed generated programs, all served through the real HTTP handlers in both execution modes; by-construction non-terminating and memory-doubling programs under a watchdog",
+            "level_text": "Every binary/unary operator, every builtin at arity 0-3 and every statement position is exercised with every operand kind (null, bool, int, float, string, array, object, extreme and zero values) in both modes (about 50k enumerated cases per run), then generated programs with 35% ill-typed operands: the handler must not panic (net/http would drop the connection), the status must be 2xx/4xx/5xx, a 5xx body must be exactly the generic one, no 4xx/5xx body may carry Go text (types, file:line, runtime error, %!...), and where the reference evaluator says the evaluation faults the interpreter must not answer 2xx. Non-terminating and size-doubling programs must end in a 5xx within a 100 s watchdog; a hang or a dead worker process is attributed through the journal.",
+            "level_note": "The matrices are exhaustive for the listed kinds only; provider-call faults are covered under C12, parser depth under C10. The hang verdict is the one place a time budget decides (the programs have no finite semantics); the budget is 100x the interpreter's own loop bound on this machine.",
+        },
+        "rule": ("enumerated matrix cases (13 binary operators x 13x13 operand kinds, 2 unary, 19 statement positions, every interpreter builtin x arity 0..3) x 2 modes, "
+                 "15 by-construction non-terminating / doubling programs x 2 modes, and rapid-generated programs (35% ill-typed operands) with 1-3 requests x 2 modes; "
+                 "non-trivial = the evaluation faulted (4xx/5xx) in at least one mode; distinct = hash of (label/source, mode)"),
+        "assumptions": [
+            "handlers are built by the CLI's own setupRoutes/createHandler and called through httptest; a panic reaching the test is what net/http would turn into a dropped connection",
+            "worker processes run under RLIMIT_AS so that a memory blow-up kills the worker, not the machine",
+        ],
+        "units": [
+            {"name": "c04-matrix", "bin": "cmdglyph", "build": "inpkg:cmd/glyph", "run": "^TestC04Matrix$", "enumerate": True, "shards": 14},
+            {"name": "c04-prog", "bin": "cmdglyph", "build": "inpkg:cmd/glyph", "run": "^TestC04Prog$", "quick": 15000, "thorough": 600000},
+            {"name": "c04-nonterm", "bin": "cmdglyph", "build": "inpkg:cmd/glyph", "run": "^TestC04Nonterm$", "enumerate": True, "shards": 13, "gomaxprocs": 4, "rlimit_as_gb": 12},
+        ],
+    },
     "C20": {
         "level": "exploration",
         "manifest": {
